@@ -131,3 +131,25 @@ Theorem C07_sort_key_null_placement_refuted :
     sort_puts_nulls_first nf d <> key_order_nulls_first d.
 Proof. exact sort_key_null_placement_refuted. Qed.
 Print Assumptions C07_sort_key_null_placement_refuted.
+
+(* concurrentPath (lake plans): an operator whose result depends on the
+   positions of the values or on the whole stream (head, tail, uniq, fuse,
+   fork, join, output) ends the concurrent path and requires the scan order,
+   and it is never passed over: behind any prefix of other operators the path
+   ends at it with orderRequired = true, unless an earlier sort or summarize
+   ended the path first.  (The model's decision is compared with the real
+   optimizer's Slicer on every lake plan the harness compiles.) *)
+Theorem C07_positional_requires_order :
+  forall o r k sk,
+    positional_op o = true -> concurrent_path (o :: r) k sk = (k, sk, true, true).
+Proof. exact positional_requires_order. Qed.
+Print Assumptions C07_positional_requires_order.
+
+Theorem C07_order_required_at_first_positional :
+  forall pre o r k sk,
+    positional_op o = true ->
+    let '(_, _, required, _) := concurrent_path (pre ++ o :: r) k sk in
+    required = true \/ exists p, In p pre /\ (exists l ks a d pi po, p = OSummarize l ks a d pi po) \/
+                                 In p pre /\ (exists a nf rv, p = OSort a nf rv).
+Proof. exact order_required_at_first_positional. Qed.
+Print Assumptions C07_order_required_at_first_positional.
